@@ -830,6 +830,14 @@ def _locals_in(e):
     return out
 
 
+def _uses(x, tags):
+    if isinstance(x, (tuple, list)):
+        if x and isinstance(x[0], str) and x[0] in tags:
+            return True
+        return any(_uses(y, tags) for y in x)
+    return False
+
+
 FEATURES = ["hof", "multi", "fatal"]
 
 
@@ -850,7 +858,19 @@ def program_case(draw):
     g = Gen(draw, FEATURES)
     prog = g.program()
     recs = draw(st.lists(record_strategy(), min_size=0, max_size=6))
-    mode = draw(st.sampled_from(["put", "put", "put", "put -q", "put -S"]))
+    mode = draw(st.sampled_from(["put", "put", "put", "put -q", "put -S", "filter", "filter -x"]))
+    if mode.startswith("filter"):
+        if _uses(prog, {"filter"}):
+            mode = "put"        # "filter expressions must not also contain the filter keyword"
+        else:
+            # mlr filter: the last bare boolean evaluated decides; assignments and output statements work as in put
+            g.in_main = True
+            g.frames = [{}]
+            g.rec_dirty = True
+            cond = g.e_bool(1)
+            idx = max([i for i, s in enumerate(prog) if s[0] not in ("end",)] or [-1]) + 1
+            prog = prog[:idx] + [("bare", cond)] + prog[idx:]
+            g.labels.add("filter-mode")
     return {"prog": prog, "recs": recs, "mode": mode, "labels": sorted(g.labels)}
 
 
@@ -881,7 +901,7 @@ def normalize(prog):
 
 def expected_output(prog, recs, mode):
     quiet = mode == "put -q"
-    it = md.Interp(prog, mode="put", quiet=quiet)
+    it = md.Interp(prog, mode="filter" if mode.startswith("filter") else "put", quiet=quiet, invert=(mode == "filter -x"))
     out = it.run([MMap(r) for r in recs])
     lines = []
     for kind, v in out:
@@ -901,6 +921,8 @@ def run_program(ctx, text, recs, mode, extra=()):
         f.write(text)
     try:
         verb = ["put"] + (["-q"] if mode == "put -q" else []) + (["-S"] if mode == "put -S" else [])
+        if mode.startswith("filter"):
+            verb = ["filter"] + (["-x"] if mode == "filter -x" else [])
         stdin = ("".join(md.to_json(MMap(r)) + "\n" for r in recs)).encode()
         return ctx.mlr(["--ijsonl", "--ojsonl"] + list(extra) + verb + ["-f", path], stdin=stdin, timeout=6 if ctx._shrinking else 30)
     finally:
